@@ -38,6 +38,8 @@ func NewClientServerStream(ctx context.Context) *ClientServerStream {
 }
 
 func (s *ClientServerStream) Close(err error) {
+	// headers that were set but never sent go out with the end of the call
+	_ = (&serverStream{s}).SendHeader(nil)
 	s.closeErr = err
 	close(s.serverSend)
 	s.closed()
@@ -128,6 +130,13 @@ type serverStream struct {
 }
 
 func (s *serverStream) SetHeader(md metadata.MD) error {
+	s.headerM.Lock()
+	defer s.headerM.Unlock()
+	select {
+	case <-s.headerC:
+		return errors.New("headers already sent")
+	default:
+	}
 	s.header = metadata.Join(s.header, md)
 	return nil
 }
